@@ -559,7 +559,7 @@ def pred_item_len3(case):
     with warnings.catch_warnings():
         warnings.simplefilter("ignore")
         msg = item_check(None, case, []) or ""
-    return "array of 3 values" in msg
+    return "array of 3 values) has shape" in msg
 
 
 def pred_rotations_small_grid(case):
